@@ -20,6 +20,7 @@ type input struct {
 func main() {
 	in := flag.String("scenarios", "", "JSON input file")
 	out := flag.String("out", "", "NDJSON output file")
+	dirk := flag.String("dirk", "", "path of a dirk binary: the service-level scenarios are sent to the real program, whose configuration file carries the permission entries")
 	flag.Parse()
 	data, err := os.ReadFile(*in)
 	if err != nil {
@@ -50,7 +51,7 @@ func main() {
 		os.Exit(2)
 	}
 	for _, sc := range inp.Scenarios {
-		if err := world.RunPermScenario(ctx, sc, log); err != nil {
+		if err := world.RunPermScenarioOn(ctx, sc, log, *dirk); err != nil {
 			log.Emit(world.Ev{"ev": "DriverError", "sc": sc.ID, "err": err.Error()})
 			fmt.Fprintln(os.Stderr, "scenario", sc.ID, "failed:", err)
 			os.Exit(2)
